@@ -32,7 +32,10 @@ instant, an integrator-supplied extension); E/F ("changes that hide well":
 sibling paths, store behaviours, concurrency); G/H (integrator-supplied
 implementations, feature interactions, value normalisation, state that
 outlives a request, error-path ordering); I/J (regressions of the repairs
-made in `/repo`, and changes in helpers shared by several endpoints). After the
+made in `/repo`, and changes in helpers shared by several endpoints); M/N
+(rarely used shipped alternatives - other strategies, optional client / session
+interfaces, non-default Config getters - and the interaction of two features).
+Letters K/L are the benign round (section 9.1). After the
 fourth round every kept
 change was applied again to `/repo` HEAD and its checks re-run with the final
 harness (`reseed.py`); the table shows those results. Every change kept here was confirmed by
@@ -52,7 +55,22 @@ the table names the check that reports them).
 | Change | What it does | Needs | Detected by (first witness key) |
 |---|---|---|---|
 %s
-""" % (len(rows), own_n, sum(1 for r in rows if "**not detected**" not in r), "\n".join(rows))
+
+### 9.1 Benign changes (false-alarm round)
+
+The converse experiment: forty changes that PRESERVE their property (`benign/<id>-<K|L>/`, two per property). Fresh
+sub-agents were given only the property text and a scratch worktree and asked to change as much as possible of what the
+statement does not pin down - control flow, hint / debug texts, the legal error chosen where several apply, the order of
+independent storage calls, additional storage reads, stricter validation, other data structures and locks in the reference
+store, token lengths, extra headers and JSON members - with an argument, clause by clause, why the property still holds.
+`./benign_run.sh` applies each one to a scratch worktree of `/repo` and runs ALL twenty quick checks against it (800 check
+runs); any exit other than 0 is an alarm on code where the property holds. Alarms found, all corrected in the machinery
+(section 8 has the details), none by loosening a check that was right:
+
+%s
+
+After the corrections all forty changes are silent under all twenty checks.
+""" % (len(rows), own_n, sum(1 for r in rows if "**not detected**" not in r), "\n".join(rows), open('/verif/benign/ALARMS.md').read().strip())
 p = '/verif/DESIGN.md'
 s = open(p).read()
 i = s.find('## 9. Seeded changes')
